@@ -612,3 +612,15 @@ pub fn idx(raw: u16, len: usize) -> usize {
 pub fn boxed<S: Strategy + 'static>(s: S) -> BoxedStrategy<S::Value> {
     s.boxed()
 }
+
+/// statistics left by scripts/fuzz_tier.sh (thorough tiers only); Null when the stage did not run
+pub fn fuzz_stats(root: &Path, target: &str) -> serde_json::Value {
+    let p = root.join("work").join(format!("fuzz-stats-{}.json", target));
+    match std::fs::read_to_string(&p) {
+        Ok(t) => {
+            let _ = std::fs::remove_file(&p);
+            serde_json::json!({ "coverage_guided_stage": serde_json::from_str::<serde_json::Value>(&t).unwrap_or(serde_json::Value::Null) })
+        }
+        Err(_) => serde_json::Value::Null,
+    }
+}
